@@ -681,6 +681,7 @@ func (x *Exec) execIterator(fr *Frame, st *State, con *FuncContract, fn *ssa.Fun
 		x.assume(head, evalInv(head, i, cl))
 	}
 	x.jumpCellsZero(head, yield, true)
+	x.cover(head, fmt.Sprintf("loop %d body reachable under its invariant", ord))
 	cont := body(head, i)
 	var exits []*State
 	if head.pc != tFalse {
